@@ -229,6 +229,24 @@ def decide_close(ob, name, p, code, ref, tol, *, domain=None, oracle=None, make_
                     return res(ob, name, 'violated', qs, 'model residual %.3e; %s' % (float(d), msg), key=key or ob,
                                witness=args, replay_path=path, paths=paths)
                 wit = (float(d), msg)
+    if wit is None and oracle is not None and (domain is None or any(k not in domain for k in solve.free_vars([cz, rz] + list(p.assumptions) + list(p.pc)))):
+        # no numeric domain for this obligation (callee summaries, shared symbolic constants): replay the solver's model and the
+        # stress points as they are; the oracle decides
+        vars_ = solve.free_vars([cz, rz] + list(p.assumptions) + list(p.pc))
+        pts = []
+        if v.status == 'sat' and v.model is not None:
+            try:
+                pts.append(solve.model_env(v.model, vars_))
+            except Exception:  # noqa
+                pass
+        pts += list(extra_points)
+        for e in pts[:3]:
+            args = make_args(e) if make_args else e
+            viol, msg, path = replay.confirm(pid, ob, key or ob, oracle, args)
+            if viol is True:
+                _CONFIRMED[(pid, key or ob)] = path
+                return res(ob, name, 'violated', qs, 'solver model replayed; %s' % msg, key=key or ob, witness=args, replay_path=path, paths=paths)
+            wit = (1.0, msg)
     return res(ob, name, 'inconclusive', qs,
                '%s solver=%s; no replayed witness%s' % (detail, v.status, (' (best residual %.3e: %s)' % wit) if wit else ''),
                paths=paths)
@@ -263,6 +281,8 @@ def decide_goal(ob, name, conds, goal, *, timeout_s=30, seed=0, oracle=None, arg
             if all(k in domain for k in fv):
                 envs += sample_envs(fv, {k: domain[k] for k in fv}, list(num_conds) + [z3.Not(goal)], n=4, seed=seed,
                                     extra_points=extra_points)
+        if not envs:
+            envs = [{}]      # no model (solver unknown): the oracle's own stress inputs are still replayed
         for env in envs[:5]:
             args = args_from_model(env)
             if args is None:
